@@ -448,8 +448,8 @@ class rkmodel(timemodel):
             # revert to initial step
             pfield = field.copy()
             # aggregate residuals
-            for qf in self.residual: # multiply last residual first ...
-                qf *= pcoef[-1]
+            # multiply last residual first (out of place: these arrays belong to modeldisc) ...
+            self.residual = [pcoef[-1] * qf for qf in self.residual]
             for i in range(pcoef.size - 1):
                 for q in range(pfield.neq):
                     self.residual[q] += pcoef[i] * prhs[i][q] # ... and add previous RHS
